@@ -87,6 +87,7 @@ BasePackage(mallc, reexp, withRall, ext, cyc, mal, kbase) ==
    kbase |-> kbase,                                \* class K(B)
    imp |-> reexp,                                  \* names re-exported by pkg/__init__ from M
    ext |-> ext, cyc |-> cyc,                       \* dangling / cyclic re-export present
+   vend |-> {},                                    \* names of the site whose (unresolvable) import was replaced by a local definition
    mal |-> mal,                                    \* plain import of the defining module: `import pkg.M as mal`
    hasRall |-> withRall,                           \* pkg/__init__ defines __all__ = re-exported names
    rall |-> IF withRall THEN reexp \cup (IF ext THEN {"ext"} ELSE {}) \cup (IF cyc THEN {"cyc"} ELSE {})
@@ -105,17 +106,20 @@ SitePath == IF site = "root" THEN ROOT ELSE <<"pkg", "zapi">>
 DefH(d) == H("def", d, "-")
 IsAlias(h) == h.t \in {"imp", "mcyc", "inh"}
 PathOf(h) == CASE h.t = "root" -> ROOT [] h.t = "sib" -> <<"pkg", "zapi">> [] h.t = "def" -> CP(h.id)
-               [] h.t = "imp" -> Append(SitePath, h.id)
+               [] h.t \in {"imp", "loc"} -> Append(SitePath, h.id)
                [] h.t = "mcyc" -> <<"pkg", "M", "cyc">> [] OTHER -> Append(CP(h.cls), NameOf(h.id))
 NameH(h) == PathOf(h)[Len(PathOf(h))]
-KindH(v, h) == IF h.t \in {"root", "sib"} THEN "module" ELSE v.kind[h.id]        \* only used on non-alias handles
+KindH(v, h) == IF h.t \in {"root", "sib"} THEN "module" ELSE IF h.t = "loc" THEN "attribute" ELSE v.kind[h.id]        \* only used on non-alias handles
 
 \* members in definition order (dict order of Object.members)
 Imports(v) ==          \* the alias members created by the import statements of the re-export site, in source order
   [i \in 1..Len(SelectSeq(ImportNames, LAMBDA n : n \in v.imp)) |-> H("imp", SelectSeq(ImportNames, LAMBDA n : n \in v.imp)[i], "-")]
-  \o (IF v.ext THEN <<H("imp", "ext", "-")>> ELSE <<>>)
-  \o (IF v.cyc THEN <<H("imp", "cyc", "-")>> ELSE <<>>)
+  \o (IF v.ext /\ "ext" \notin v.vend THEN <<H("imp", "ext", "-")>> ELSE <<>>)
+  \o (IF v.cyc /\ "cyc" \notin v.vend THEN <<H("imp", "cyc", "-")>> ELSE <<>>)
   \o (IF v.mal THEN <<H("imp", "mal", "-")>> ELSE <<>>)
+  \* "loc": a plain attribute `ext = 1` / `cyc = 1` defined in the site itself (after the imports and __all__)
+  \o (IF "ext" \in v.vend THEN <<H("loc", "ext", "-")>> ELSE <<>>)
+  \o (IF "cyc" \in v.vend THEN <<H("loc", "cyc", "-")>> ELSE <<>>)
 OwnMembers(v, h) ==
   IF h.t = "root"                      \* submodules are attached after the visit of __init__, in sorted order
   THEN (IF site = "root" THEN Imports(v) ELSE <<>>)
@@ -139,8 +143,8 @@ Lookup(v, h, nm) == LET ms == AllMembers(v, h)
                     IN IF hit = {} THEN NoH ELSE ms[CHOOSE i \in hit : TRUE]
 
 \* mixins.is_public, statement by statement (public attribute is never set here)
-ParentIsModule(h) == h.t \in {"imp", "mcyc", "sib"} \/ (h.t = "def" /\ ParentOf(h.id) \in {"root", "M"})
-InSite(h) == h.t = "imp"                                                   \* member of the module holding the re-exports
+ParentIsModule(h) == h.t \in {"imp", "loc", "mcyc", "sib"} \/ (h.t = "def" /\ ParentOf(h.id) \in {"root", "M"})
+InSite(h) == h.t \in {"imp", "loc"}                                                  \* member of the module holding the re-exports
 InPkg(h) == h.t = "sib" \/ (h.t = "def" /\ h.id = "M")                     \* member of pkg/__init__ itself
 ParentHasAll(v, h) == IF InSite(h) THEN v.hasRall                          \* parent.exports is not None (fix cee63a5)
                       ELSE IF InPkg(h) THEN site = "root" /\ v.hasRall
@@ -201,7 +205,8 @@ FunctionIncompat(vo, vn, ho, hn, acc) ==
   IN IF ~returnsCompatible THEN Yield(acc1, "RETURN_CHANGED_TYPE", hn) ELSE acc1
 \* _attribute_incompatibilities
 AttributeIncompat(vo, vn, ho, hn, acc) ==
-  IF vo.val[ho.id] # vn.val[hn.id] THEN Yield(acc, "ATTRIBUTE_CHANGED_VALUE", hn) ELSE acc
+  IF ho.t = "loc" \/ hn.t = "loc" THEN acc            \* vendored names keep their value `1` (never both sides here)
+  ELSE IF vo.val[ho.id] # vn.val[hn.id] THEN Yield(acc, "ATTRIBUTE_CHANGED_VALUE", hn) ELSE acc
 
 \* _type_based_yield (with _alias_incompatibilities inlined in its first branch)
 TypeBasedYield(vo, vn, ho, hn, acc) ==
@@ -317,6 +322,12 @@ AddOptKw(d) ==
   /\ d \in {"f", "bm"}
   /\ new.kind[d] = "function" /\ d \notin new.opt
   /\ Logged("AddOptKw", d, [new EXCEPT !.opt = @ \cup {d}])
+\* the unresolvable / cyclic re-export `from extlib import ext` (`from pkg.M import cyc`) is replaced by a plain
+\* definition of the same name in the site ("the helper got vendored"): the public name stays
+Vendor(nm) ==
+  /\ nm \in {"ext", "cyc"}
+  /\ (IF nm = "ext" THEN old.ext /\ new.ext ELSE old.cyc /\ new.cyc) /\ nm \notin new.vend
+  /\ Logged("Vendor", nm, [new EXCEPT !.vend = @ \cup {nm}])
 AddReturn(d) ==                                   \* `def f(a): ...` -> `def f(a) -> int: ...`
   /\ d \in {"f", "bm"}
   /\ new.kind[d] = "function" /\ old.kind[d] = "function" /\ d \notin new.ret
@@ -338,7 +349,7 @@ Init ==
   /\ canon = CanonPaths(old)
 
 Next == \/ \E d \in DefIds : Remove(d) \/ ChangeKind(d) \/ ChangeValue(d) \/ AddPublic(d) \/ AddOptKw(d) \/ AddReturn(d)
-        \/ RemoveBase \/ AddBase \/ RemoveImport
+        \/ RemoveBase \/ AddBase \/ RemoveImport \/ \E nm \in {"ext", "cyc"} : Vendor(nm)
 Spec == Init /\ [][Next]_vars
 
 \* ---- the property ------------------------------------------------------------------------------------
